@@ -22,7 +22,7 @@ CHECKS['C11'] = dict(
     quick_is_thorough=True,
     level='model_checking',
     steps=[dict(mode='asan', bin='c11_utf')],
-    rule='exhaustive enumeration of code-unit strings: ALL UTF-8 byte strings of length 0..3 (16 843 009), all strings of length 4..5 (quick) / 4..6 (thorough) over 16 boundary bytes and 7..8 over 6 bytes; '
+    rule='exhaustive enumeration of code-unit strings: ALL UTF-8 byte strings of length 0..3 (16 843 009), all 4-byte strings whose first two bytes take every value and whose last two range over {00,41,7F,80,BF,C0,FF} (3 211 264: every lead F0..FF with every first continuation byte), all strings of length 4..5 (quick) / 4..6 (thorough) over 16 boundary bytes and 7..8 over 6 bytes; '
          'UTF-16 strings <=4 over 14 boundary units and every first unit x (boundary + D7F0..E00F) second units (quick) / all 2^32 pairs (thorough); UTF-32 single units k<<16|{0,FFFF} plus boundary set, strings <=3 over 8 values; '
          'each in an exact-size guard-page buffer, with pError NULL / non-NULL and buffer_end NULL for NUL-terminated text, compared with a Unicode Table 3-7 reference decoder. '
          'Shaping clause: all scalar sequences <=3 over 7 scalars x 3 encodings x optional single-unit ill-formed insertion at every position x dir 0/1 x fonts. distinct = (ill-formed, truncated, surrogate, NUL, error, count) classes and distinct segment dumps',
@@ -100,7 +100,7 @@ _PROG_RULE = ('fonts enumerated by gen/progenum.py and filtered by the REAL load
               '{NEXT, PUT_GLYPH x|y, PUT_SUBS -1|0|+1, PUT_COPY -1|0|+1, INSERT, DELETE, ASSOC, attach.to -2..2, ATTR_SET adv/shift/att/insert, IATTR_SET user, SET_FEAT, slot/glyph-attr readers} x 6 terminators '
               '(RET_ZERO, POP_RET -2..2), in 3 (quick) / 6 (thorough) rule contexts (rule length 1..3, pre-context 0..1, maxRuleLoop 1/2/5, substitution or positioning pass) followed by a fixed attaching pass; '
               '(constraint) every constraint program of <=4 / <=5 atoms over 20 atoms incl. CNTXT_ITEM bodies netting 0/+1/+2, plus CNTXT_ITEM bodies of k = 2..16 pushes (skipped at run time on the other slots) followed by k-1 AND/ADD/OR; (twopass) all ordered pairs (thorough: triples) of 18 hand-written attach/re-attach/delete/insert/copy/assoc rules '
-              'in two passes / one pass / substitution+positioning, LTR and RTL fonts; (manyrules) scale seeds with 43..200 rules per rule length 1..4 ending in successive success states (candidate lists beyond the 128-entry rule buffers of the engine); (slotattrs) every slot-attribute code 0..79 through ATTR_SET / ATTR_ADD / PUSH_SLOT_ATTR / IATTR_SET / PUSH_ISLOT_ATTR / IATTR_ADD with sub-indices {0,1,3,255}, in fonts with 0/1/2 justification levels and 1/3 user attributes, substitution and positioning pass; (growth) a substitution rule inserting k in {1,31,62,63,64,65,100} slots per glyph, optionally a second doubling substitution pass, then a pass at iPos that does nothing / INSERTs / DELETEs (the 64-slots-per-character budget and the refusal by the loader of length-changing opcodes after iPos); (classmap) every class map of 1..2 (thorough 1..3) classes from a 5-entry catalog (empty, 1..3 members) x every linear/lookup split x PUT_GLYPH / PUT_SUBS in the 8- and 16-bit forms over every class index incl. one past the map (index equal to the size of an output class, empty classes, an output class ending the class data).  Every accepted font x every text of length 0..3 (thorough 0..4) over {a, b, unmapped} + astral/mark/long texts x dir flags {0,1,3,6} (thorough 0..7) x {font NULL, ppm 12}. ')
+              'in two passes / one pass / substitution+positioning, LTR and RTL fonts; (manyrules) scale seeds with 43..200 rules per rule length 1..4 ending in successive success states (candidate lists beyond the 128-entry rule buffers of the engine); (slotattrs) every slot-attribute code 0..79 through ATTR_SET / ATTR_ADD / PUSH_SLOT_ATTR / IATTR_SET / PUSH_ISLOT_ATTR / IATTR_ADD with sub-indices {0,1,3,255}, in fonts with 0/1/2 justification levels and 1/3 user attributes, substitution and positioning pass; (growth) a substitution rule inserting k in {1,31,62,63,64,65,100} slots per glyph, optionally a second doubling substitution pass, then a pass at iPos that does nothing / INSERTs / DELETEs (the 64-slots-per-character budget and the refusal by the loader of length-changing opcodes after iPos); (classmap) every class map of 1..2 (thorough 1..3) classes from a 5-entry catalog (empty, 1..3 members) x every linear/lookup split x PUT_GLYPH / PUT_SUBS in the 8- and 16-bit forms over every class index incl. one past the map (index equal to the size of an output class, empty classes, an output class ending the class data); (stalemap) a rule of length 2..3 that deletes one of its slots (five shapes, one with pre-context), then a rule of length 1..2 on the glyph it wrote whose attach.to names the slot k = -3..4 items away (before its slot map, inside it, the look-ahead entry, one and two past it), in the same pass, the next substitution pass or a positioning pass: entries of the shared slot map left by the longer earlier run must not be reachable.  Every accepted font x every text of length 0..3 (thorough 0..4) over {a, b, unmapped} + astral/mark/long texts x dir flags {0,1,3,6} (thorough 0..7) x {font NULL, ppm 12}. ')
 
 for _p, _what in (('C02', 'oracle: ASan/UBSan silence, rule-loop counter hook <= maxRuleLoop x (slots + insert budget + 2), n_slots <= 64 x max(1,nChars), all gr_seg_*/gr_slot_*/gr_cinfo_* queries incl. every gr_slot_attr code, allocation balance, table borrow discipline'),
                   ('C03', 'oracle: next/prev chain visits exactly n_slots distinct slots ending at last, prev inverse, indices a permutation, finite positions, gid < n_glyphs'),
@@ -108,7 +108,7 @@ for _p, _what in (('C02', 'oracle: ASan/UBSan silence, rule-loop counter hook <=
                   ('C05', 'oracle: n_cinfo == nChars, characters and bases equal the reference decoding, slot before/after/original in range, every character covered, cinfo before/after in [0,n_slots)')):
     CHECKS[_p] = dict(
         level='exploration',
-        steps=[dict(name='program_enumeration', py=stream_families(['classmap', 'growth', 'slotattrs', 'twopass', 'manyrules', 'deep', 'constraint', 'action'], _p), targets=[('asan', 'c02_stream')]),
+        steps=[dict(name='program_enumeration', py=stream_families(['stalemap', 'classmap', 'growth', 'slotattrs', 'twopass', 'manyrules', 'deep', 'constraint', 'action'], _p), targets=[('asan', 'c02_stream')]),
                dict(name='accepted_load_mutants', py=cached_binary('c01_load', _p, 'C01'), targets=[('asan', 'c01_load')]),
                dict(name='shipped_corpora', py=cached_binary('c03_corpus', _p, 'C02'), targets=[('asan', 'c03_corpus')])],
         rule=_PROG_RULE + 'Additionally every C01 load mutant (single byte / field / field pair / truncation deviations of the seed fonts) that the loader accepts is shaped with 4 texts x dir {0,1,3}; and every shipped font x corpus lines/words (quick: first 1500, the collision fonts all) + every substring of 1..4 characters of the first lines (texts that start inside a cluster or with a mark) and every synthesised seed font (all S-full / S-min / Feat variants: compressed, RTL, line-end flag, pass bits, bidi step with mirroring, dense attributes, cmap edges ...) x all strings of length 0..3 over 11 characters (letters, space, marks, pseudo-glyph character, supplementary character), x dir 0..7 x {font NULL, ppm 16}; (encodings) UTF-16 and UTF-32 input: every unit sequence of length 1..4 over alphabets with paired, unpaired and reversed surrogates / out-of-range values on two fonts, char-infos compared with the reference decoding. ' + _what + '. distinct = distinct structural segment dumps (slots, glyphs, attachments, associations) observed',
